@@ -97,88 +97,186 @@ def chain(f):
     return out, final_else
 
 
+HANDLERS = ["setRepeatCount", "setShuffle", "addGroupFilter", "addGroupDotNameFilter", "addStrictGroupFilter", "addExcludeGroupFilter", "addExcludeStrictGroupFilter",
+            "addNameFilter", "addStrictNameFilter", "addExcludeNameFilter", "addExcludeStrictNameFilter", "addTestToRunBasedOnVerboseOutput", "setOutputType", "setPackageName"]
+VERDICT_HANDLERS = {"addGroupDotNameFilter", "setShuffle", "setOutputType", "plugin"}        # their false result rejects the command line
+PREFIX_OPTS = {"-r": ("setRepeatCount", ()), "-s": ("setShuffle", ()), "-o": ("setOutputType", ()), "-k": ("setPackageName", ()), "-p": ("plugin", ()),
+               "-g": ("addGroupFilter", ()), "-sg": ("addStrictGroupFilter", ()), "-xg": ("addExcludeGroupFilter", ()), "-xsg": ("addExcludeStrictGroupFilter", ()),
+               "-n": ("addNameFilter", ()), "-sn": ("addStrictNameFilter", ()), "-xn": ("addExcludeNameFilter", ()), "-xsn": ("addExcludeStrictNameFilter", ()),
+               "-t": ("addGroupDotNameFilter", ("-t", 0, 0)), "-st": ("addGroupDotNameFilter", ("-st", 1, 0)), "-xt": ("addGroupDotNameFilter", ("-xt", 0, 1)),
+               "-xst": ("addGroupDotNameFilter", ("-xst", 1, 1)), "TEST(": ("addTestToRunBasedOnVerboseOutput", ("TEST(",)), "IGNORE_TEST(": ("addTestToRunBasedOnVerboseOutput", ("IGNORE_TEST(",))}
+
+
+def reference_dispatch(arg):
+    """the documented meaning of one argument: an exact flag, else the longest option literal it starts with, else a rejection"""
+    if arg in FLAGS:
+        return ("flag", FLAGS[arg][0], 1 if FLAGS[arg][1] == "true" else 0)
+    best = None
+    for lit in PREFIX_OPTS:
+        if arg.startswith(lit) and (best is None or len(lit) > len(best)):
+            best = lit
+    if best is None:
+        return ("reject",)
+    return ("handler",) + PREFIX_OPTS[best]
+
+
+def ev_text(v, env):
+    """text of an element pointer value given the cells of an environment"""
+    if not (isinstance(v, tuple) and v[0] == "ptr"):
+        return v
+    out, i_ = [], v[2]
+    while "%s[%d]" % (v[1], i_) in env and env["%s[%d]" % (v[1], i_)] != 0 and len(out) < 4096:
+        out.append(chr(env["%s[%d]" % (v[1], i_)] & 0xff))
+        i_ += 1
+    return "".join(out)
+
+
+def initial_fields(prog, ac, av):
+    """the fields a freshly constructed CommandLineArguments holds: its constructor folded"""
+    ct = [f for f in prog.methods_of(CLS) if f.kind == "ctor"][0]
+    e = Evaluator(prog, ct, env={ct.params[0]["name"]: ac, ct.params[1]["name"]: av})
+    e.objects = True
+    e.run_blocks(ct.entry, max_steps=300)
+    fields = {fl["name"] for fl in prog.records.get(CLS, {}).get("fields", [])}
+    return {k: v for k, v in e.env.items() if k in fields}
+
+
+def fold_parse(prog, argv, answers=None, consume=()):
+    """CommandLineArguments::parse folded on a model argv (argv[0] is the program name). The option handlers and the
+    plugin are recording stubs (answers: handler -> result, default true; consume: handlers that advance the index by
+    one, as a handler taking its value from the next argument does); every other member parse() uses is inlined.
+    Returns (return value, events, fields changed)."""
+    answers = answers or {}
+    parse = prog.fn(CLS + "::parse")
+    env = initial_fields(prog, len(argv), ("ptr", "AV", 0))
+    for i_, a in enumerate(argv):
+        env["AV[%d]" % i_] = ("str", a)
+    before = dict(env)
+    env[parse.params[0]["name"]] = 900
+    events = []
+
+    def handler(name):
+        def h(ev_, *a_):
+            vals = [x if isinstance(x, int) else (x[1] if isinstance(x, tuple) and x[0] == "str" else str(x)) for x in a_]
+            events.append((name,) + tuple(vals))
+            if name in consume:
+                keys = getattr(ev_, "last_arg_keys", [])
+                k_ = keys[2] if len(keys) > 2 else None
+                if k_ is None or not isinstance(ev_.env.get(k_), int):
+                    raise Unknown("index argument of %s is not an lvalue" % name)
+                ev_.env[k_] += 1
+                ev_.stores.append((k_, ev_.env[k_]))
+            return answers.get(name, 1)
+        h.wants_ev = True
+        return h
+    hooks = {CLS + "::" + hn: handler(hn) for hn in HANDLERS}
+    hooks["TestPlugin::parseAllArguments"] = handler("plugin")
+    ev = Evaluator(prog, parse, env=env, calls=string_hooks(hooks))
+    ev.pass_object = True
+    ev.run_blocks(parse.entry, max_steps=6000)
+    r = getattr(ev, "ret", None)
+    if not isinstance(r, int):
+        raise Unknown("parse returns %r" % (r,))
+    changed = {k: v for k, v in ev.env.items() if k in before and before[k] != v and not k.startswith("AV")}
+    return r, events, changed
+
+
 def check(ctx, run):
     prog = ctx.program()
     run.assume("the option letters and their meaning are those of the program's own help text (public contract frozen in the rule tables)")
     run.not_decided.append("termination and memory safety of the string primitives for arbitrary argument bytes (C13's undecided part); C13.R2 reports the subString defect reachable from an unterminated TEST( argument")
-    run.rule("R1", "dispatch shadow-freedom: in the else-if chain of parse() no earlier exact literal equals, and no earlier prefix literal is a prefix of, a later branch's literal", floor=31, exhaustive=True)
+    run.rule("R1", "dispatch shadow-freedom: parse() folded on [prog, <arg>] for every documented option literal (alone, with a value, with =) selects exactly that option's documented action (exact flag, else longest option literal the argument starts with): no option is shadowed by an earlier test", floor=31, exhaustive=True)
     run.rule("R2", "handler/flag TABLE: each option sets its own field / calls the handler that reads its own literal; s => strictMatching, x => invertMatching, g/n => group/name list; getters return their fields; the runner consumes each getter with the documented action", floor=70)
-    run.rule("R3", "argv index safety: every av[e] has e == i (in range by the loop/caller) or is dominated by i + 1 < ac; every av[i] + K is dominated by size() > K; plugins get i by value", floor=10)
-    run.rule("R4", "rejection means no run: parse returns false in the iteration that rejects; the runner calls runAllTests only on the true edge of parseArguments; -h rejects", floor=4)
-    run.rule("R5", "repeat/shuffle: the next argument is consumed only when it parses to a non-zero number; defaults applied otherwise", floor=6)
+    run.rule("R3", "argv index safety: every value-taking handler and getParameterField folded on model command lines (value attached / in the next argument / missing, option last) in which only argv[0..ac-1] and each argument up to its terminator exist never read outside them, take the documented value and leave the index inside argv; plugins get i by value; subString positions are total", floor=10)
+    run.rule("R4", "rejection means no run: parse() folded on near-miss arguments rejects without effect; on multi-argument command lines a rejection or a false handler verdict ends parsing at once, accepted arguments are each dispatched once at their own index, a handler that consumed the next argument skips it; the runner calls runAllTests only on the true edge of parseArguments; -h rejects", floor=4)
+    run.rule("R5", "repeat/shuffle: setRepeatCount / setShuffle folded on model command lines (number attached, separate, zero, not a number, missing; clock zero/non-zero): the next argument is consumed only when it parses to a non-zero number; defaults applied otherwise; a zero seed is rejected", floor=6)
 
     parse = prog.fn(CLS + "::parse")
     run.analysed(parse)
-    ch, final_else = chain(parse)
-    if len(ch) < 25:
-        raise AnalysisBroken("dispatch chain of parse() not recognised (%d branches)" % len(ch))
-
-    # ---------------- R1 ----------------------------------------------------
-    seen = []
-    for tests, then, node in ch:
-        for kind, lit in tests:
-            sh = None
-            for k0, l0 in seen:
-                if k0 == "exact" and kind == "exact" and l0 == lit:
-                    sh = (k0, l0)
-                if k0 == "exact" and kind == "prefix" and False:
-                    pass
-                if k0 == "prefix" and lit.startswith(l0):
-                    sh = (k0, l0)
-            run.ob("R1", "%s %r is reachable" % (kind, lit), parse.site, sh is None, witness={"earlier": sh, "branch": short(render_stmt(parse, then), 80)},
-                   what="" if sh is None else "option %s can never be selected: the earlier %s test %r catches it" % (lit, sh[0], sh[1]))
-        seen.extend(tests)
-    # an exact option that a *later* prefix would also match is fine; an exact literal matched by an EARLIER prefix is the bug (checked above)
+    # ---------------- R1 / R2 (dispatch) / R4 (parse) ----------------------------
+    # parse() folded on model command lines with recording stubs for the option handlers; the oracle is the documented
+    # meaning of an argument (reference_dispatch): an exact flag, else the longest option literal it starts with
+    corpus = list(FLAGS)
+    for lit in PREFIX_OPTS:
+        corpus += [lit, lit + "X1", lit + "="]
+    corpus += ["", "-", "-z", "-hx", "-vvv", "-vx", "-cx", "-bx", "-lgx", "-lnx", "-llx", "-l", "-fx", "-ex", "-cix", "-rix", "-x", "-xs", "-xq", "TEST", "IGNORE_TEST",
+               "IGNORE_TEST(a, b)", "test(", " -v", "-V", "--v", "-sgA", "-snB", "-stC.d", "-s5", "-xsgQ", "-xsnQ", "-xstQ.r", "v", "-ci-", "-e-", "-G"]
+    seen_args = set()
+    try:
+        for arg in corpus:
+            if arg in seen_args:
+                continue
+            seen_args.add(arg)
+            ref = reference_dispatch(arg)
+            r, events, changed = fold_parse(prog, ["prog", arg])
+            shown = {"returns": r, "handlers": [list(e) for e in events], "fields changed": changed}
+            why = ""
+            if ref[0] == "flag":
+                want_r = 0 if arg == "-h" else 1
+                if events or changed != {ref[1]: ref[2]} or r != want_r:
+                    why = "documented flag %s must set %s = %d only and %s" % (arg, ref[1], ref[2], "reject the run" if not want_r else "accept")
+                rid = "R2"
+            elif ref[0] == "reject":
+                if events or changed or r != 0:
+                    why = "an argument that is no documented option must be rejected without effect"
+                rid = "R4"
+            else:
+                name, extra = ref[1], ref[2]
+                want = (name,) + ((900,) if name == "plugin" else ()) + (2, str(("ptr", "AV", 0)), 1) + tuple(extra)
+                if events != [want] or changed or r != 1:
+                    why = "%r must reach %s%s with (ac_, av_, i)%s and nothing else" % (arg, name, "" if name != "plugin" else " of the plugin chain", (" and " + repr(extra)) if extra else "")
+                else:
+                    r0, ev0, ch0 = fold_parse(prog, ["prog", arg, "-v"], answers={name: 0})
+                    if name in VERDICT_HANDLERS and (r0 != 0 or ch0):
+                        why = "a false verdict of %s must reject the command line at once (returns %s, later fields %s)" % (name, r0, ch0)
+                    if name not in VERDICT_HANDLERS and (r0 != 1 or ch0 != {"verbose_": 1}):
+                        why = "%s has no verdict: parsing must go on with the next argument" % name
+                rid = "R1" if arg in PREFIX_OPTS or arg in FLAGS else "R2"
+            run.ob(rid if not (ref[0] == "flag" and arg in FLAGS) else "R2", "argument %r: %s" % (arg, " ".join(str(x) for x in ref)), parse.site, not why, witness=shown, what=why)
+            if ref[0] != "reject" and arg in list(FLAGS) + list(PREFIX_OPTS):
+                run.ob("R1", "option %s is reachable: it selects its own documented action" % arg, parse.site, not why, witness=shown,
+                       what="" if not why else "option %s can never be selected (an earlier test catches it) or selects another action: %s" % (arg, why))
+        seqs = [
+            (["prog"], {}, (), 1, [], {}),
+            (["prog", "-v", "-gX", "-c", "-snY"], {}, (), 1, [("addGroupFilter", 5, 2), ("addStrictNameFilter", 5, 4)], {"verbose_": 1, "color_": 1}),
+            (["prog", "-c", "-zz", "-v"], {}, (), 0, [], {"color_": 1}),
+            (["prog", "-v", "-h", "-c"], {}, (), 0, [], {"verbose_": 1, "needHelp_": 1}),
+            (["prog", "-oxml", "-v"], {"setOutputType": 0}, (), 0, [("setOutputType", 3, 1)], {}),
+            (["prog", "-kpkg", "-v"], {"setPackageName": 0}, (), 1, [("setPackageName", 3, 1)], {"verbose_": 1}),
+            (["prog", "-r", "3", "-v"], {}, ("setRepeatCount",), 1, [("setRepeatCount", 4, 1)], {"verbose_": 1}),
+            (["prog", "-g", "X"], {}, ("addGroupFilter",), 1, [("addGroupFilter", 3, 1)], {}),
+            (["prog", "-s", "77", "-b", "-xgA"], {}, ("setShuffle",), 1, [("setShuffle", 5, 1), ("addExcludeGroupFilter", 5, 4)], {"reversing_": 1}),
+            (["prog", "-p", "-pfoo", "-ri"], {"plugin": 1}, (), 1, [("plugin", 4, 2)], {"runTestsAsSeperateProcess_": 1, "runIgnored_": 1}),
+            (["prog", "-pfoo", "-ri"], {"plugin": 0}, (), 0, [("plugin", 3, 1)], {}),
+            (["prog", "-e", "-ci", "-f", "-lg", "-ln", "-ll", "-vv"], {}, (), 1, [], {"rethrowExceptions_": 0, "crashOnFail_": 1, "listTestGroupNames_": 1, "listTestGroupAndCaseNames_": 1, "listTestLocations_": 1, "veryVerbose_": 1}),
+        ]
+        for argv, answers, consume, want_r, want_ev, want_ch in seqs:
+            r, events, changed = fold_parse(prog, argv, answers=answers, consume=consume)
+            got_ev = [(e[0],) + tuple(x for x in e[1:] if isinstance(x, int) and x != 900)[:2] for e in events]
+            ok = (r, got_ev, changed) == (want_r, want_ev, want_ch)
+            run.ob("R4", "command line %s%s%s" % (argv[1:], (" with %s" % answers) if answers else "", (", %s taking its value from the next argument" % consume[0]) if consume else ""), parse.site, ok,
+                   witness={"returns": r, "handlers (name, ac, i)": [list(e) for e in got_ev], "fields changed": changed},
+                   what="" if ok else "expected: returns %d, handlers %s, fields %s (a rejection must end parsing at once; an accepted argument must not end it; each argument is dispatched once at its own index)" % (want_r, want_ev, want_ch))
+    except Unknown as u:
+        raise AnalysisBroken("C12: parse() cannot be folded on a model command line: %s" % u)
 
     # ---------------- R2 ----------------------------------------------------
-    branch_of = {}
-    for tests, then, node in ch:
-        for kind, lit in tests:
-            branch_of[(kind, lit)] = then
-    for opt, (field, val) in FLAGS.items():
-        then = branch_of.get(("exact", opt))
-        if then is None:
-            run.ob("R2", "flag %s" % opt, parse.site, False, what="documented option %s has no exact-match branch" % opt)
-            continue
-        asg = [(l, render(parse, r)) for l, r, n in assignments(parse) if n["id"] in {x["id"] for x in parse.walk(then)}]
-        ok = (field, val) in asg
-        run.ob("R2", "flag %s sets %s = %s" % (opt, field, val), parse.site, ok, witness=asg, what="" if ok else "option %s does not set %s" % (opt, field))
     for g, field in GETTERS.items():
         f = prog.fn("%s::%s" % (CLS, g))
         run.analysed(f)
         rets = [render(f, f.node(n.get("value"))) for n in f.walk() if n["k"] == "ReturnStmt"]
         run.ob("R2", "getter %s returns %s" % (g, field), f.site, rets == [field], witness=rets)
-    # filter handlers
-    def handler_call(then):
-        cs = [c for c in parse.calls(then) if (prog.callee_name(parse, c) or "").startswith(CLS + "::")]
-        return cs
+    # filter handlers (which handler an option literal reaches is decided by the parse fold above)
     for opt, (lst, s, x) in FILTER_OPTS.items():
-        then = branch_of.get(("prefix", opt))
-        if then is None:
-            run.ob("R2", "filter option %s" % opt, parse.site, False, what="documented option %s has no prefix branch" % opt)
-            continue
-        cs = handler_call(then)
-        if len(cs) != 1:
-            run.ob("R2", "filter option %s" % opt, parse.site, False, what="branch does not call exactly one handler", witness=[render(parse, c) for c in cs])
-            continue
-        tg = prog.call_targets(parse, cs[0])
-        h = prog.functions.get(tg[0][0]) if tg else None
-        if h is None:
-            run.ob("R2", "filter option %s" % opt, parse.site, False, what="handler unresolved")
-            continue
+        h = prog.fn(CLS + "::" + PREFIX_OPTS[opt][0])
         run.analysed(h)
         why = []
-        args = [render(parse, a) for a in parse.args(cs[0])]
-        if args != ["ac_", "av_", "i"]:
-            why.append("handler called with %s" % args)
-        lits = [lit_of_simplestring(h, h.args(c)[3]) for c in calls_to(prog, h, CLS + "::getParameterField") if len(h.args(c)) == 4]
-        if lits != [opt]:
-            why.append("handler slices the value with %r, the dispatch literal is %r" % (lits, opt))
+        sliced = []
         # the handler folded: which filter object it creates, how it is modified and where it is pushed
         log = []
         GL, NL = 500, 600
         ev = Evaluator(prog, h, env=dict({"groupFilters_": GL, "nameFilters_": NL}, **{q["name"]: 3 for q in h.params}),
-                       calls=string_hooks({CLS + "::getParameterField": lambda *a_: ("str", "value"),
+                       calls=string_hooks({CLS + "::getParameterField": lambda *a_, sliced=sliced: (sliced.append(a_[-1]), ("str", "value"))[1],
                                            "TestFilter::strictMatching": lambda *a_: (log.append(("strict", a_[0])), 0)[1],
                                            "TestFilter::invertMatching": lambda *a_: (log.append(("invert", a_[0])), 0)[1],
                                            "TestFilter::add": lambda *a_: (log.append(("add", a_[0], a_[1])), a_[0])[1]}))
@@ -188,6 +286,8 @@ def check(ctx, run):
         except Unknown as u:
             run.broke("C12.R2: handler %s cannot be folded: %s" % (h.qn, u))
             continue
+        if sliced != [("str", opt)]:
+            why.append("handler slices the value with %r, the option literal is %r" % ([x_[1] if isinstance(x_, tuple) else x_ for x_ in sliced], opt))
         news = [t for t in ev.trace if t[0].startswith("new TestFilter")]
         if len(news) != 1 or news[0][1][1:] != [("str", "value")]:
             why.append("creates %d filters from %s; expected one from the option's value" % (len(news), [t[1][1:] for t in news]))
@@ -203,17 +303,6 @@ def check(ctx, run):
             if [x_ for x_ in log if x_[0] == "add"] != [("add", obj, old)] or ev.env.get(wl) != obj or ev.env.get(ol) != (NL if lst == "g" else GL):
                 why.append("the new filter is not pushed once in front of %s (adds %s, lists now %s / %s)" % (wl, [x_ for x_ in log if x_[0] == "add"], ev.env.get("groupFilters_"), ev.env.get("nameFilters_")))
         run.ob("R2", "filter option %s -> %s" % (opt, h.name), h.site, not why, witness=why or "literal, modifiers and list agree", what="; ".join(why))
-    for opt, (strict, excl) in DOT_OPTS.items():
-        then = branch_of.get(("prefix", opt))
-        cs = handler_call(then) if then is not None else []
-        ok = len(cs) == 1
-        w = None
-        if ok:
-            a = parse.args(cs[0])
-            w = [render(parse, x) for x in a]
-            ok = len(a) == 6 and w[:3] == ["ac_", "av_", "i"] and lit_of_simplestring(parse, a[3]) == opt and w[4] == ("true" if strict else "false") and w[5] == ("true" if excl else "false") \
-                and prog.callee_name(parse, cs[0]) == CLS + "::addGroupDotNameFilter"
-        run.ob("R2", "group.name option %s passes (%r, strict=%s, exclude=%s)" % (opt, opt, strict, excl), parse.site, ok, witness=w)
     dn = prog.fn(CLS + "::addGroupDotNameFilter")
     run.analysed(dn)
     pn = [p["name"] for p in dn.params]
@@ -272,11 +361,6 @@ def check(ctx, run):
             run.ob("R2", "addGroupDotNameFilter folded on %r: rejected, no filter added" % text, dn.site, okr, witness={"returns": r, "filters": len(news)})
     except Unknown as u:
         run.broke("C12.R2: addGroupDotNameFilter cannot be folded: %s" % u)
-    for nm in ("TEST(", "IGNORE_TEST("):
-        then = branch_of.get(("prefix", nm))
-        cs = handler_call(then) if then is not None else []
-        ok = len(cs) == 1 and lit_of_simplestring(parse, parse.args(cs[0])[3]) == nm and prog.callee_name(parse, cs[0]) == CLS + "::addTestToRunBasedOnVerboseOutput"
-        run.ob("R2", "verbose-output form %s" % nm, parse.site, ok, witness=[render(parse, c) for c in cs])
     tv = prog.fn(CLS + "::addTestToRunBasedOnVerboseOutput")
     run.analysed(tv)
     def from_till(o, c1, c2):
@@ -310,12 +394,6 @@ def check(ctx, run):
             run.broke("C12.R2: addTestToRunBasedOnVerboseOutput cannot be folded: %s" % u)
             continue
         run.ob("R2", "TEST(g, n) form folded on %r: adds one strict group filter %r and one strict name filter %r" % (text, wg, wn), tv.site, not why, witness=why or "ok", what=why)
-    # other valued options
-    for opt, hname in (("-r", "setRepeatCount"), ("-s", "setShuffle"), ("-o", "setOutputType"), ("-k", "setPackageName")):
-        then = branch_of.get(("prefix", opt))
-        cs = handler_call(then) if then is not None else []
-        ok = len(cs) == 1 and prog.callee_name(parse, cs[0]) == CLS + "::" + hname and [render(parse, a) for a in parse.args(cs[0])] == ["ac_", "av_", "i"]
-        run.ob("R2", "option %s -> %s(ac_, av_, i)" % (opt, hname), parse.site, ok, witness=[render(parse, c) for c in cs])
     so = prog.fn(CLS + "::setOutputType")
     run.analysed(so)
     kinds = {e["name"]: e["v"] for en in prog.enums.values() for e in en["enumerators"] if e["name"].startswith("OUTPUT_")}
@@ -394,63 +472,120 @@ def check(ctx, run):
             ok = "createConsoleOutput()" in names and not any(n.startswith("createJUnitOutput") or n.startswith("createTeamCity") for n in names)
         run.ob("R2", "runner: output kind [%s]" % short(p.describe(pa), 90), pa.site, ok, witness=names[-3:])
 
-    # ---------------- R3 ----------------------------------------------------
-    n3 = 0
-    for f in prog.methods_of(CLS):
-        idxs = [n for n in f.walk() if n["k"] == "ArraySubscriptExpr" and render(f, f.node(n["base"])) in ("av", "av_")]
-        for n in idxs:
-            n3 += 1
-            e = render(f, f.node(n["idx"]))
-            pos = f.where_enclosing(n)
-            facts = [(atom(f, c), pol) for c, pol, b in f.edge_conditions(pos)] if pos else []
-            held = set()
-            for (key, apol), pol in facts:
-                held.add((key, apol == pol))
-            idxvar = e.replace("++", "").replace("(", "").replace(")", "").replace(" + 1", "").strip()
-            acname = "ac_" if f.name == "parse" else "ac"
-            if e in ("i", "index"):
-                if f.name == "parse":
-                    ok = ("(%s < %s)" % (e, acname), True) in held
-                    why = "" if ok else "av_[i] not under the loop guard i < ac_"
-                else:
-                    # precondition i < ac from parse's loop; every write to i in this function must be guarded by i + 1 < ac
-                    ok, why = True, ""
-                    for m in f.walk():
-                        if m["k"] == "UnaryOperator" and m.get("op") in ("++", "--") and render(f, m["c"][0]) == e:
-                            mp = f.where_enclosing(m)
-                            mf = {(atom(f, c), pol) for c, pol, b in f.edge_conditions(mp)}
-                            mh = {(k[0], k[1] == pol) for k, pol in mf}
-                            if m["op"] == "--" or (("((%s + 1) < %s)" % (e, acname)), True) not in mh:
-                                ok, why = False, "index %s is advanced without a dominating %s + 1 < %s" % (e, e, acname)
-            elif e in ("(i + 1)", "++i", "(index + 1)", "++index"):
-                ok = ("((%s + 1) < %s)" % (idxvar, acname), True) in held
-                why = "" if ok else "%s[%s] is not dominated by %s + 1 < %s" % (render(f, f.node(n["base"])), e, idxvar, acname)
-            else:
-                ok, why = False, "index expression %s is not of a form the rule can bound" % e
-            run.ob("R3", "av[%s]" % e, f.site, ok, witness={"facts": sorted("%s%s" % ("" if v else "!", k) for k, v in held)}, what=why)
-        # pointer offsets into an argument
-        for n in f.walk():
-            if n["k"] == "BinaryOperator" and n.get("op") == "+" and n.get("ct", "").endswith("char *"):
-                l = render(f, f.node(n["lhs"]))
-                if not l.startswith("av"):
+    # ---------------- R3 / R5 -------------------------------------------------
+    # the handlers that index argv folded on model command lines in which only argv[0..ac-1] and the characters of each
+    # argument up to its terminator exist: any other read is a read outside the object
+    def atoi(ev_, v):
+        m_ = re.match(r"\s*([+-]?\d+)", ev_.cstring(v))
+        return int(m_.group(1)) if m_ else 0
+    atoi.wants_ev = True
+
+    def atou(ev_, v):
+        return atoi(ev_, v) & 0xffffffff
+    atou.wants_ev = True
+
+    def fold_handler(hname, argv, i, extra=(), now=123456):
+        h = prog.fn(CLS + "::" + hname)
+        pn = [q["name"] for q in h.params]
+        env = initial_fields(prog, len(argv), ("ptr", "AV", 0))
+        env.update({"groupFilters_": 500, "nameFilters_": 600, "packageName_": ("str", ""), pn[0]: len(argv), pn[1]: ("ptr", "AV", 0), pn[2]: i})
+        env.update(dict(zip(pn[3:], extra)))
+        for j, a_ in enumerate(argv):
+            env["AV[%d]" % j] = ("str", a_)
+        log = []
+        hooks = string_hooks({"SimpleString::AtoI": atoi, "SimpleString::AtoU": atou, "GetPlatformSpecificTimeInMillis": lambda *a_: now,
+                              "TestFilter::strictMatching": lambda *a_: (log.append(("strict", a_[0])), 0)[1], "TestFilter::invertMatching": lambda *a_: (log.append(("invert", a_[0])), 0)[1],
+                              "TestFilter::add": lambda *a_: (log.append(("add", a_[0], a_[1])), a_[0])[1]})
+        ev = Evaluator(prog, h, env=env, calls=hooks)
+        ev.pass_object = True
+        try:
+            ev.run_blocks(h.entry, max_steps=3000)
+        except Unknown:
+            if not [k_ for k_ in getattr(ev, "absent_reads", []) if re.match(r"AV\[|L\d+\[", k_)]:
+                raise
+        out_ = [k_ for k_ in getattr(ev, "absent_reads", []) if re.match(r"AV\[|L\d+\[", k_)]
+        if out_:
+            raise Unknown("read outside the object: %s" % out_[0])
+        news = [t[1] for t in ev.trace if t[0].startswith("new TestFilter")]
+        r = getattr(ev, "ret", None)
+        return r, ev.env.get(pn[2]), ev.env, news, log
+
+    def outside(u):
+        return bool(re.search(r"AV\[|read outside the object|L\d+\[", str(u)))
+
+    def value_models(lit):
+        """(argv, index, value the option has, index afterwards)"""
+        return [(["prog", lit], 1, "", 1), (["prog", lit + "Val"], 1, "Val", 1), (["prog", lit, "Val"], 1, "Val", 2), (["prog", "-v", lit], 2, "", 2),
+                (["prog", "-v", lit, "Nxt", "-c"], 2, "Nxt", 3), (["prog", lit + "V"], 1, "V", 1)]
+    for lit, (hname, extra) in sorted(PREFIX_OPTS.items()):
+        if hname in ("plugin", "addGroupDotNameFilter", "addTestToRunBasedOnVerboseOutput", "setRepeatCount", "setShuffle"):
+            continue
+        h = prog.fn(CLS + "::" + hname)
+        run.analysed(h)
+        why = ""
+        for argv, i, val, after in value_models(lit):
+            try:
+                r, i2, env2, news, log = fold_handler(hname, argv, i)
+            except Unknown as u:
+                if outside(u):
+                    why = why or "on %s (index %d) the handler reads outside argv or past the end of an argument: %s" % (argv, i, u)
                     continue
-                k = render(f, f.node(n["rhs"]), keep_explicit_casts=False)
-                pos = f.where_enclosing(n)
-                held = set()
-                for c, pol, b in f.edge_conditions(pos):
-                    key, apol = atom(f, c)
-                    held.add((key, apol == pol))
-                inits = local_inits(f)
-                ok = False
-                for key, v in held:
-                    m = re.match(r"^\((\w+) < (\w+)\.size\(\)\)$", key)
-                    if m and v and m.group(1) == k and m.group(2) in inits and l in render(f, inits[m.group(2)]):
-                        ok = True
-                    m = re.match(r"^\((\d+) < (\w+)\.size\(\)\)$", key)
-                    if m and v and m.group(1) == k and m.group(2) in inits and l in render(f, inits[m.group(2)]):
-                        ok = True
-                run.ob("R3", "%s + %s stays inside the argument" % (l, k), f.site, ok, witness=sorted("%s%s" % ("" if v else "!", kk) for kk, v in held),
-                       what="" if ok else "offset %s into %s is not dominated by a check that the argument is longer than %s" % (k, l, k))
+                raise AnalysisBroken("C12.R3: %s cannot be folded on %s: %s" % (hname, argv, u))
+            if i2 != after:
+                why = why or "on %s the index goes from %d to %s, expected %d (the value %s the next argument)" % (argv, i, i2, after, "is" if after != i else "is not")
+            elif hname.startswith("add") and [n_[1:] for n_ in news] != [[("str", val)]]:
+                why = why or "on %s the filter is created from %s, the option's value is %r" % (argv, [n_[1:] for n_ in news], val)
+            elif hname == "setPackageName" and env2.get("packageName_") != ("str", val):
+                why = why or "on %s the package name becomes %r, the option's value is %r" % (argv, env2.get("packageName_"), val)
+        run.ob("R3", "%s (%s) folded on 6 command lines: reads stay inside argv[0..ac-1] and inside each argument; the value is the attached text, else the next argument (consumed), else empty" % (hname, lit), h.site, not why,
+               witness=why or "attached / separate / missing value, option last", what=why)
+    gp = prog.fn(CLS + "::getParameterField")
+    run.analysed(gp)
+    why = ""
+    for lit in ("-g", "-xg", "-xsg", "TEST(", "IGNORE_TEST("):
+        for argv, i, val, after in value_models(lit):
+            try:
+                r, i2, env2, news, log = fold_handler("getParameterField", argv, i, extra=(("str", lit),))
+            except Unknown as u:
+                if outside(u):
+                    why = why or "getParameterField(%s, %d, %r) reads outside argv or past the end of an argument: %s" % (argv, i, lit, u)
+                    continue
+                raise AnalysisBroken("C12.R3: getParameterField cannot be folded on %s: %s" % (argv, u))
+            got = r[1] if isinstance(r, tuple) and r[0] == "str" else (ev_text(r, env2) if isinstance(r, tuple) else r)
+            if got != val or i2 != after:
+                why = why or "getParameterField(%s, %d, %r) returns %r and leaves the index at %s; expected %r and %d" % (argv, i, lit, got, i2, val, after)
+    run.ob("R3", "getParameterField folded for 5 option literals x 6 command lines: the text behind the literal, else the next argument (index advanced, bounded by ac), else empty", gp.site, not why, witness=why or "30 cases", what=why)
+    # repeat / shuffle
+    rc = prog.fn(CLS + "::setRepeatCount")
+    run.analysed(rc)
+    for argv, i, want_rep, after in ((["prog", "-r"], 1, 2, 1), (["prog", "-r5"], 1, 5, 1), (["prog", "-r", "3"], 1, 3, 2), (["prog", "-r", "-v"], 1, 2, 1), (["prog", "-r", "0"], 1, 2, 1),
+                                     (["prog", "-r0"], 1, 2, 1), (["prog", "-r12"], 1, 12, 1), (["prog", "-c", "-r"], 2, 2, 2), (["prog", "-r", "7", "9"], 1, 7, 2), (["prog", "-rx"], 1, 2, 1), (["prog", "-r", "x3"], 1, 2, 1)):
+        why = ""
+        try:
+            r, i2, env2, news, log = fold_handler("setRepeatCount", argv, i)
+            if env2.get("repeat_") != want_rep or i2 != after:
+                why = "repeat count %s, index %d -> %s; expected %d and %d (the next argument is consumed only when it parses to a non-zero number; no number means twice)" % (env2.get("repeat_"), i, i2, want_rep, after)
+        except Unknown as u:
+            if not outside(u):
+                raise AnalysisBroken("C12.R5: setRepeatCount cannot be folded on %s: %s" % (argv, u))
+            why = "reads outside argv or past the end of an argument: %s" % u
+        run.ob("R5", "setRepeatCount folded on %s" % argv[1:], rc.site, not why, witness=why or {"repeat_": want_rep, "index": after}, what=why)
+    sh = prog.fn(CLS + "::setShuffle")
+    run.analysed(sh)
+    for argv, i, now, want, after in ((["prog", "-s"], 1, 123456, (1, 123456, 0, 1), 1), (["prog", "-s"], 1, 0, (1, 1, 0, 1), 1), (["prog", "-s77"], 1, 5, (1, 77, 1, 1), 1), (["prog", "-s", "9"], 1, 5, (1, 9, 1, 1), 2),
+                                      (["prog", "-s", "x"], 1, 5, (1, 5, 0, 1), 1), (["prog", "-s", "0"], 1, 5, (1, 5, 0, 1), 1), (["prog", "-s0"], 1, 5, (1, 0, 1, 0), 1), (["prog", "-b", "-s"], 2, 5, (1, 5, 0, 1), 2),
+                                      (["prog", "-s", "-v"], 1, 8, (1, 8, 0, 1), 1), (["prog", "-s4294967295"], 1, 5, (1, 4294967295, 1, 1), 1)):
+        why = ""
+        try:
+            r, i2, env2, news, log = fold_handler("setShuffle", argv, i, now=now)
+            got = (env2.get("shuffling_"), env2.get("shuffleSeed_"), env2.get("shufflingPreSeeded_"), r)
+            if got != want or i2 != after:
+                why = "(shuffling, seed, preseeded, accepted) = %s, index %d -> %s; expected %s and %d" % (got, i, i2, want, after)
+        except Unknown as u:
+            if not outside(u):
+                raise AnalysisBroken("C12.R5: setShuffle cannot be folded on %s: %s" % (argv, u))
+            why = "reads outside argv or past the end of an argument: %s" % u
+        run.ob("R5", "setShuffle folded on %s with the clock at %d" % (argv[1:], now), sh.site, not why, witness=why or {"(shuffling, seed, preseeded, accepted)": want, "index": after}, what=why)
     tp = prog.method_decl([m for m in [x["mn"] for r in [prog.records.get("TestPlugin", {})] for x in r.get("methods", []) if x["name"] == "parseAllArguments"]][0])[1] if prog.records.get("TestPlugin") else None
     pts = [m for m in prog.records.get("TestPlugin", {}).get("methods", []) if m["name"] == "parseAllArguments"]
     ok = bool(pts) and all(m["params"][2]["ct"] == "int" for m in pts if len(m["params"]) == 3)
@@ -460,41 +595,7 @@ def check(ctx, run):
     from .C13 import substring_bound_rule
     substring_bound_rule(prog, run, "R3")
 
-    # ---------------- R4 ----------------------------------------------------
-    groups = {}
-    for p in enumerate_paths(parse):
-        ids = [e for e in p.trace if isinstance(e, int)]
-        rejected_at = None
-        how = None
-        for i, e in enumerate(ids):
-            n = parse.nodes[e]
-            if n["k"] == "BinaryOperator" and n.get("op") == "=" and render(parse, parse.node(n["lhs"])) == "correctParameters":
-                cv = const_value(parse, parse.node(n["rhs"]))
-                if cv == 0:
-                    rejected_at, how = i, "literal rejection in branch [%s]" % ([k for k, v, b, c in p.decisions if v is True and "argument" in k] or ["else"])[-1]
-                    break
-                if cv is None:
-                    # verdict of a handler: rejected when the following check sees false
-                    later = [(k, v) for k, v, b, c in p.decisions if k == "correctParameters"]
-                    if later and later[0][1] is False:
-                        rejected_at, how = i, "handler verdict %s" % short(render(parse, parse.node(n["rhs"])), 60)
-                        break
-        if rejected_at is None:
-            continue
-        after = [parse.nodes[e] for e in ids[rejected_at + 1:]]
-        more_args = [n for n in after if n["k"] == "DeclStmt" and any(d.get("name") == "argument" for d in n.get("decls", []))]
-        rv = const_value(parse, parse.node(p.ret.get("value"))) if p.ret is not None and p.ret.get("value") is not None else None
-        ok = p.end == "return" and rv == 0 and not more_args
-        g = groups.setdefault(how, {"ok": True, "n": 0, "bad": None})
-        g["n"] += 1
-        if not ok:
-            g["ok"] = False
-            g["bad"] = {"path": short(p.describe(parse), 200), "returns": rv, "further_arguments_parsed": len(more_args)}
-    for how, g in sorted(groups.items()):
-        run.ob("R4", "rejection returns false in the same iteration: %s" % how, parse.site, g["ok"], witness=g["bad"] or {"paths": g["n"]},
-               what="" if g["ok"] else "after rejecting an argument the loop goes on (a later argument can overwrite the verdict) or the function does not return false")
-    if not groups:
-        run.ob("R4", "rejection returns false in the same iteration", parse.site, False, what="no rejecting path found")
+    # ---------------- R4 (runner) -------------------------------------------
     rm = prog.fn("CommandLineTestRunner::runAllTestsMain")
     run.analysed(rm)
     for p in enumerate_paths(rm):
@@ -507,39 +608,3 @@ def check(ctx, run):
     ini = local_inits(rm)
     tr0 = const_value(rm, ini["testResult"]) if "testResult" in ini else None
     run.ob("R4", "a rejected command line yields a non-zero result", rm.site, tr0 not in (None, 0), witness=tr0)
-
-    # ---------------- R5 ----------------------------------------------------
-    for hname, valname in (("setRepeatCount", "repeat_"), ("setShuffle", "parsedParameter")):
-        h = prog.fn(CLS + "::" + hname)
-        run.analysed(h)
-        iname = h.params[2]["name"]
-        for p in enumerate_paths(h):
-            adv = 0
-            byref = []
-            for e in p.trace:
-                if not isinstance(e, int):
-                    continue
-                n = h.nodes[e]
-                if n["k"] == "UnaryOperator" and n.get("op") in ("++", "--") and render(h, n["c"][0]) == iname:
-                    adv += 1
-                if n["k"] in ("CallExpr", "CXXMemberCallExpr"):
-                    pt = callee_param_types(prog, n) or []
-                    for a, t in zip(h.args(n), pt):
-                        if render(h, a) == iname and t.endswith("&") and not t.startswith("const"):
-                            byref.append(render(h, n))
-            val = p.val()
-            nz = [v for k, v in val.items() if k in (valname, "(%s == 0)" % valname, "(0 == %s)" % valname)]
-            guard = val.get("((%s + 1) < ac)" % iname)
-            sz = [v for k, v in val.items() if "size()" in k]
-            ok = True
-            why = ""
-            if byref:
-                ok, why = False, "the index is handed by reference to %s, which may consume the next argument whatever it contains" % byref[0]
-            elif adv:
-                nonzero = any((k == valname and v) or (k in ("(%s == 0)" % valname, "(0 == %s)" % valname) and v is False) for k, v in val.items())
-                if adv != 1 or guard is not True or not nonzero or sz != [False]:
-                    ok, why = False, "the next argument is consumed although it did not parse to a non-zero number (or without the bounds check)"
-            run.ob("R5", "%s consumes the next argument only for a non-zero number [%s]" % (hname, short(p.describe(h), 80)), h.site, ok, witness={"advanced": adv}, what=why)
-    rc = prog.fn(CLS + "::setRepeatCount")
-    last = [(l, render(rc, r)) for l, r, n in assignments(rc)]
-    run.ob("R5", "-r without a number repeats twice", rc.site, ("repeat_", "2") in last, witness=last)
